@@ -912,3 +912,19 @@ mod tests {
 		assert!(res.is_none());
 	}
 }
+
+/// Wrappers for the out-of-tree verification harness.
+#[cfg(feature = "_verif")]
+pub mod verif_hooks {
+	use super::*;
+	/// One framed peer message (2-byte type, payload) through `wire::read` the way the peer handler calls it (no
+	/// custom messages): the type id the decoded message reports and its re-encoding, framed the same way.
+	pub fn read_framed(bytes: &[u8]) -> Result<(u16, Vec<u8>), String> {
+		let handler = crate::ln::peer_handler::IgnoringMessageHandler {};
+		let msg = read(&mut &bytes[..], &handler).map_err(|e| format!("{:?}", e))?;
+		let mut out = Vec::new();
+		msg.type_id().write(&mut out).unwrap();
+		msg.write(&mut out).unwrap();
+		Ok((msg.type_id(), out))
+	}
+}
